@@ -405,20 +405,31 @@ func (r *run) judge() []finding {
 	}
 
 	// the model expectation (R2..R6) found by the controller
+	reportMM := func() {
+		key := fmt.Sprintf("%s-%s-got-%s", r.mm.Rule, sb, r.mm.Got)
+		add(key, fmt.Sprintf("%s: expected %v, observed %s%s; case %s", ruleText[r.mm.Rule], r.mm.Allowed, r.mm.Got, noteText(r.mm.Note), r.c.class()))
+	}
+	deferred := false
 	if r.mm != nil {
 		if r.mm.Got == resS && r.m.long && r.m.p == "ans" {
 			r.mm.Rule = "R2" // whatever else was going on: a timely primary answer was passed over
 		}
-		key := fmt.Sprintf("%s-%s-got-%s", r.mm.Rule, sb, r.mm.Got)
-		add(key, fmt.Sprintf("%s: expected %v, observed %s%s; case %s", ruleText[r.mm.Rule], r.mm.Allowed, r.mm.Got, noteText(r.mm.Note), r.c.class()))
+		if r.mm.Rule == "R6" && (r.mm.Got == resP || r.mm.Got == resS || r.mm.Got == resFailed) {
+			// the call did end; whether that result was legitimate is what the
+			// generic rules on the return event decide
+			deferred = true
+		} else {
+			reportMM()
+		}
 	}
 	if r.stall != "" {
 		add("no-progress-"+r.stall, fmt.Sprintf("%s within %v (nominal < 1 ms resp. the %v threshold); case %s", r.stall, progressBound, r.thr, r.c.class()))
 	}
 
 	// generic rules on the return event (only a return the controller saw, i.e. before cleanup)
+	nBefore := len(out)
 	ret := idx("return", "")
-	if ret >= 0 && ret < cleanupSeq && r.mm == nil {
+	if ret >= 0 && ret < cleanupSeq && (r.mm == nil || deferred) {
 		res := strings.Fields(evs[ret].Info)[0]
 		el := evs[ret].t - t0
 		switch res {
@@ -457,6 +468,10 @@ func (r *run) judge() []finding {
 		case resForeign:
 			add("foreign-or-missing-answer", "the call returned nil but the response is not one of its workers' answers: "+evs[ret].Info)
 		}
+	}
+
+	if deferred && len(out) == nBefore {
+		reportMM()
 	}
 
 	// workers run on private copies carrying the caller's deadline
